@@ -76,6 +76,25 @@ def census(ctx):
     out.append(Obligation("C06.F2 initial state: only StructuredRecord defines `_regex`, as None", [],
                           tm.B(len(ok_def) == 1 and not bad_def), kind="F", text="class-level definitions: %s" % definers,
                           meta=dict(function="census", clause="F2", detail=[list(d) for d in bad_def])))
+    # F4: the typing path keeps no other state between calls.  Escaping stores (pyvc/frames.py) whose target is
+    # reachable from a class object, a module-level name, or -- for the pattern objects of regex.py, which are
+    # themselves cached on the classes -- from `self` outside a constructor, are cross-call state.  The only one
+    # allowed is the per-class pattern cache written by _get_regex (INV_cache above).
+    from pyvc import frames
+    shared = []
+    for rel, mi in sorted(ctx.repo.modules.items()):
+        if rel.endswith(("registry/base.py", "registry/_utils.py", "elabftw.py")) or "/registry/" in rel:
+            continue
+        if rel.endswith("regex.py"):
+            spec = {q: dict(allow_self_rebind=True) for (q, f_, m_) in frames.functions_of(mi) if q.endswith(".__init__")}
+            shared += frames.check_frame(mi, rel, spec, allow_self_rebind=False, ignore_roots=("P*", "?"))
+        else:
+            spec = {"StructuredRecord._get_regex": dict(shapes={"cls._regex"})} if rel.endswith("core/_structured.py") else {}
+            shared += frames.check_frame(mi, rel, spec, ignore_roots=("self", "P*", "?"))
+        shared += frames.memoised(mi, rel)
+    out.append(Obligation("C06.F4 no state shared between typing calls other than the per-class pattern cache", [],
+                          tm.B(not shared), kind="F", text="cross-call stores: %s" % shared,
+                          meta=dict(function="census", clause="F4", detail=shared)))
     out.append(Obligation("C06.F3 structure() reads class constants only", [], tm.B(not impure), kind="F",
                           text="impure reads: %s" % impure, meta=dict(function="census", clause="F3", detail=impure)))
     return out
@@ -195,6 +214,56 @@ def _run_worker(ctx, mode, index, records):
         raise RuntimeError("worker %s %d failed: %s" % (mode, index, r.stderr[-600:]))
 
 
+def shared_objects(ctx, rng):
+    import itertools
+    from pyvc import native
+    from bounded import gen, entities as be
+    from Bio.Seq import Seq
+    from Bio.SeqRecord import SeqRecord
+    from Bio.Restriction import BsaI, BpiI
+    ns = native.load(ctx.repo_root)
+    core = ns["moclo.core"]
+    CircularRecord = ns["moclo.record"].CircularRecord
+    viol = []
+    n = 0
+
+    def mk(kind, seq):
+        if kind == "circular":
+            return CircularRecord(seq, id="p")
+        if kind == "linear":
+            return SeqRecord(seq, id="p", annotations={"topology": "linear"})
+        return SeqRecord(seq, id="p")
+
+    for cutter in (BsaI, BpiI):
+        for base in (core.Entry, core.EntryVector):
+            classes = [type("G1", (base,), dict(cutter=cutter)), type("G2", (base,), dict(cutter=cutter))]
+            inst, _ = gen.instance(classes[0].structure(), rng, run=7)
+            site = cutter.site
+            # origin inside the leading recognition site / inside the match / outside it
+            texts = [inst, inst[2:] + inst[:2], inst[-3:] + inst[:-3], inst[len(inst) // 2:] + inst[:len(inst) // 2]]
+            for text in texts:
+                kinds = ("circular", "linear", "none")
+                for order in itertools.permutations(kinds):
+                    seq = Seq(text)
+                    objs = {k: mk(k, seq) for k in kinds}
+                    # all the shared queries first (nothing unshared in between), then the unshared reference answers
+                    asked = [(k, cls, be.observe_entity(cls(objs[k]))) for k in order for cls in classes]
+                    for (k, cls, got) in asked:
+                            n += 1
+                            want = be.observe_entity(cls(mk(k, Seq(text))))
+                            if got != want:
+                                viol.append(dict(
+                                    name="shared_seq_%s_%s" % (base.__name__, k),
+                                    what="records sharing one Seq object (asked in the order %s, each by two classes): %s(%s record) "
+                                         "answers %r, for an unshared copy %r" % ("/".join(order), base.__name__, k, got, want),
+                                    case=dict(text=text, order=list(order), cutter=cutter.__name__), expected=want, observed=got))
+                                break
+    uniq = {}
+    for v in viol:
+        uniq.setdefault(v["name"], v)
+    return n, list(uniq.values())
+
+
 def bounded(ctx):
     import random
     from pyvc import native
@@ -242,6 +311,12 @@ def bounded(ctx):
     if ok:
         viol.append(dict(name="dynamic_subclass", what="a subclass created at run time gets its parent's cached pattern: %r" % (detail,),
                          case=detail))
+    # objects shared between queries: one Seq object wrapped by a plasmid, by a record declared linear and by a record
+    # without topology; one record object typed by several classes; every order of asking.  Each answer is compared
+    # with the answer for freshly built, unshared copies (state keyed by object identity shows up here)
+    n_sh, v_sh = shared_objects(ctx, rng)
+    evals += n_sh
+    viol.extend(v_sh)
     viol.sort(key=lambda v: v["name"])
     return dict(evaluations=evals, distinct_nontrivial=len(distinct),
                 rule="histories over the %d concrete kit classes: for every class X a fresh interpreter validating X first and "
